@@ -7,12 +7,17 @@
      Coherent   every filled cache equals the backend's listing, hence
      Complete   the packages a full scan (categories -> packages -> versions through the caches)
                 finds are exactly the contents: no query can miss or invent a package.
+     NoRaise    an update notification for a package the repository holds never fails
    InvalidateOnlyNewCategory = TRUE models an add that refreshes the category / package listings
-   only for a category it has not seen (expected violation: negative control).                 *)
+   only for a category it has not seen (expected violation: negative control).
+   RemoveOrder = "mutate_first" models a backend (repository.util.SimpleTree at the snapshot) that
+   drops the package from its own store BEFORE the listing caches are consulted by the
+   notification: cold listings are then read from a store that no longer knows the package
+   (expected violation of NoRaise); "notify_first" is the repaired order.                        *)
 EXTENDS Naturals, FiniteSets, TLC
-CONSTANTS Cats, Names, Vers, InvalidateOnlyNewCategory
-VARIABLES contents, catc, pkgc, verc
-vars == <<contents, catc, pkgc, verc>>
+CONSTANTS Cats, Names, Vers, InvalidateOnlyNewCategory, RemoveOrder
+VARIABLES contents, catc, pkgc, verc, raised
+vars == <<contents, catc, pkgc, verc, raised>>
 
 Pkg == [c : Cats, p : Names, v : Vers]
 None == [ok |-> FALSE, v |-> {}]
@@ -23,11 +28,12 @@ TVers(c, p) == {x.v : x \in {y \in contents : y.c = c /\ y.p = p}}
 
 Init == /\ contents \in SUBSET Pkg
         /\ catc = None /\ pkgc = [c \in Cats |-> None] /\ verc = [cp \in Cats \X Names |-> None]
+        /\ raised = FALSE
 \* lazy fills (what a query does on a cache miss)
-ReadCats == ~catc.ok /\ catc' = Some(TCats) /\ UNCHANGED <<contents, pkgc, verc>>
-ReadNames(c) == ~pkgc[c].ok /\ c \in TCats /\ pkgc' = [pkgc EXCEPT ![c] = Some(TNames(c))] /\ UNCHANGED <<contents, catc, verc>>
+ReadCats == ~catc.ok /\ catc' = Some(TCats) /\ UNCHANGED <<contents, pkgc, verc, raised>>
+ReadNames(c) == ~pkgc[c].ok /\ c \in TCats /\ pkgc' = [pkgc EXCEPT ![c] = Some(TNames(c))] /\ UNCHANGED <<contents, catc, verc, raised>>
 ReadVers(c, p) == ~verc[<<c, p>>].ok /\ p \in TNames(c)
-                  /\ verc' = [verc EXCEPT ![<<c, p>>] = Some(TVers(c, p))] /\ UNCHANGED <<contents, catc, pkgc>>
+                  /\ verc' = [verc EXCEPT ![<<c, p>>] = Some(TVers(c, p))] /\ UNCHANGED <<contents, catc, pkgc, raised>>
 KnownVers(c, p) == IF verc[<<c, p>>].ok THEN verc[<<c, p>>].v ELSE TVers(c, p)
 Add(x) == /\ x \notin contents
           /\ LET known == KnownVers(x.c, x.p)                 \* read before the backend changes
@@ -37,7 +43,27 @@ Add(x) == /\ x \notin contents
                 /\ catc' = IF skip THEN catc ELSE None
                 /\ pkgc' = IF skip THEN pkgc ELSE [pkgc EXCEPT ![x.c] = None]
                 /\ verc' = [verc EXCEPT ![<<x.c, x.p>>] = Some(known \cup {x.v})]
+                /\ UNCHANGED raised
+\* the listings as the notification sees them when the backend store is S (cached value, else read from S)
+CatsIn(S) == {y.c : y \in S}
+NamesIn(S, c) == {y.p : y \in {z \in S : z.c = c}}
+VersIn(S, c, p) == {y.v : y \in {z \in S : z.c = c /\ z.p = p}}
+CatsView(S) == IF catc.ok THEN catc.v ELSE CatsIn(S)
+\* packages.get(c, ()): a category the view does not know has no names; a stale view that still knows a
+\* category the store dropped fails (KeyError from the backend), as does a versions read of a dropped name
+NamesFails(S, c) == ~pkgc[c].ok /\ c \in CatsView(S) /\ c \notin CatsIn(S)
+NamesView(S, c) == IF pkgc[c].ok THEN pkgc[c].v ELSE IF c \in CatsView(S) THEN NamesIn(S, c) ELSE {}
+VersFails(S, c, p) == ~verc[<<c, p>>].ok /\ (p \notin NamesView(S, c) \/ VersIn(S, c, p) = {})
+RemoveFails(S, x) ==
+    \/ VersFails(S, x.c, x.p)
+    \/ /\ (IF verc[<<x.c, x.p>>].ok THEN verc[<<x.c, x.p>>].v ELSE VersIn(S, x.c, x.p)) \ {x.v} = {}
+       /\ ~pkgc[x.c].ok /\ (x.c \notin CatsView(S) \/ NamesFails(S, x.c))
 Remove(x) == /\ x \in contents
+             /\ RemoveOrder = "mutate_first" /\ RemoveFails(contents \ {x}, x)
+             /\ contents' = contents \ {x} /\ raised' = TRUE /\ UNCHANGED <<catc, pkgc, verc>>
+          \/ /\ x \in contents
+             /\ ~(RemoveOrder = "mutate_first" /\ RemoveFails(contents \ {x}, x))
+             /\ UNCHANGED raised
              /\ LET left == KnownVers(x.c, x.p) \ {x.v}
                     names == IF pkgc[x.c].ok THEN pkgc[x.c].v ELSE TNames(x.c)
                 IN /\ contents' = contents \ {x}
@@ -56,4 +82,5 @@ SeenCats == IF catc.ok THEN catc.v ELSE TCats
 SeenNames(c) == IF pkgc[c].ok THEN pkgc[c].v ELSE TNames(c)
 Scan == {x \in Pkg : x.c \in SeenCats /\ x.p \in SeenNames(x.c) /\ x.v \in KnownVers(x.c, x.p)}
 Complete == Scan = contents
+NoRaise == ~raised
 =========================================================================
